@@ -74,17 +74,25 @@ where
     /// so that the threads waiting for their turn return instead of waiting forever.
     #[inline(always)]
     pub(crate) fn complete_on_unwind(&self) -> CompleteOnUnwind<'_> {
-        CompleteOnUnwind(&self.completed)
+        CompleteOnUnwind {
+            completed: &self.completed,
+            was_panicking: std::thread::panicking(),
+        }
     }
 }
 
-/// Guard which sets the completed flag when dropped during a panic.
-pub(crate) struct CompleteOnUnwind<'a>(&'a AtomicBool);
+/// Guard which sets the completed flag when dropped during a panic that started while the guard was alive.
+pub(crate) struct CompleteOnUnwind<'a> {
+    completed: &'a AtomicBool,
+    /// the thread was already unwinding when the guard was created (a pull from within a destructor):
+    /// such a panic is not a panic of the wrapped iterator
+    was_panicking: bool,
+}
 
 impl Drop for CompleteOnUnwind<'_> {
     fn drop(&mut self) {
-        if std::thread::panicking() {
-            self.0.store(true, atomic::Ordering::SeqCst);
+        if !self.was_panicking && std::thread::panicking() {
+            self.completed.store(true, atomic::Ordering::SeqCst);
         }
     }
 }
